@@ -40,7 +40,7 @@ PropsOK == CircuitsMatch' /\ StreamsMatch' /\ StreamDetails' /\ AttachBothWays' 
 Last(s) == s[Len(s)]
 Step(e) ==
   CASE e.a = "Launch"      -> Launch(e.ev.id, e.ev.pur, e.ev.bf)
-    [] e.a = "Extend"      -> Extend(e.ev.id, Last(e.ev.path)) /\ e.ev.path = tc'[e.ev.id].path
+    [] e.a = "Extend"      -> Extend(e.ev.id, Last(e.ev.path), e.ev.pur) /\ e.ev.path = tc'[e.ev.id].path
     [] e.a = "Built"       -> Built(e.ev.id) /\ e.ev.path = tc[e.ev.id].path
     [] e.a = "CircGone"    -> CircGone(e.ev.id) /\ e.ev.st = (IF tc[e.ev.id].st = "BUILT" THEN "CLOSED" ELSE "FAILED")
                               /\ e.ev.path = tc[e.ev.id].path
